@@ -8,10 +8,11 @@ fn main() {
     let mut ctx = Ctx::from_args("C04");
     let quick = ctx.quick();
     // dagger on every diagram
-    let spec = if quick { Spec::open(3, 1, 2, 2, 2, 2, 2) } else { Spec::open(3, 2, 2, 2, 2, 2, 2) };
-    let u = spec.universe();
-    let cap = if quick { 2_000_000 } else { 100_000_000 };
-    ctx.run_slice(Slice::new(format!("dagger[{} first {}]", spec.name(), cap.min(u.count())), u.count().min(cap), |i, loc| check_dagger::<B>(&u.get_open(i), loc)));
+    let specs = if quick { vec![Spec::open(3, 1, 2, 2, 2, 2, 2)] } else { let mut v = Spec::family_3x2(2, 0, true); v.push(Spec { n_min: 3, e_min: 2, lx: 1, ..Spec::open(3, 2, 2, 2, 2, 2, 2) }); v };
+    for spec in specs {
+        let u = spec.universe();
+        ctx.run_slice(Slice::new(format!("dagger[{}]", spec.name()), u.count(), |i, loc| check_dagger::<B>(&u.get_open(i), loc)));
+    }
     // dagger vs tensor / compose on all pairs
     let specp = if quick { Spec::open(2, 1, 2, 2, 1, 1, 2) } else { Spec::open(2, 1, 2, 2, 2, 2, 2) };
     let up = specp.universe().all_open();
@@ -60,8 +61,7 @@ fn main() {
     // lax dagger on diagrams with pending unifications
     let lspec = if quick { Spec::lax(2, 1, 2, 2, 2, 2, 2, 1) } else { Spec::lax(3, 1, 2, 2, 2, 2, 2, 2) };
     let lu = lspec.universe();
-    let capl = if quick { 2_000_000 } else { 100_000_000 };
-    ctx.run_slice(Slice::new(format!("lax-dagger[{} first {}]", lspec.name(), capl.min(lu.count())), lu.count().min(capl), |i, loc| check_lax_dagger(&lu.get(i), loc)));
+    ctx.run_slice(Slice::new(format!("lax-dagger[{}]", lspec.name()), lu.count(), |i, loc| check_lax_dagger(&lu.get(i), loc)));
     let _ = POpen::<u8, u8>::empty();
     // dagger laws and fusion on larger inputs: structured diagrams and the structured gluing pairs (long legs)
     let st: Vec<_> = ohmc::props::structured::shapes(4).into_iter().map(|x| x.1).collect();
